@@ -195,17 +195,30 @@ fn install_and_check(ctx: &Ctx, rng: &mut Rng, is128: bool, path: &str, st: &mut
             quiet(&mut m);
             for k in 0..6 {
                 let show7 = k % 2 == 1;
+                // the switch happens at the frame boundary or somewhere in the middle of a frame;
+                // the frame in which it happens is not judged, every later quiet frame is
+                if rng.bool() {
+                    let tw = rng.below(m.frame_len() as u64 - 100) as usize;
+                    while m.clock() + 12 <= tw {
+                        m.step();
+                    }
+                }
+                let at = m.clock();
                 m.out(0x7FFD, if show7 { 8 } else { 0 } | (rng.below(8) as u8));
-                m.run_frames(2);
-                st.frames += 2;
-                let want = if show7 { &scr7 } else { &scr };
-                if matches(&m, want).is_none() {
-                    ctx.violation(
-                        "canvas:128k:screen-bank-switch",
-                        &format!("after setting latch bit 3 = {} for two whole frames the canvas is not the decode of bank {}: {}", show7 as u8, if show7 { 7 } else { 5 }, first_diff(&m, want)),
-                        jobj! {"case"=>case,"path"=>path,"toggle"=>k},
-                    );
-                    return;
+                m.run_frames(1);
+                let quiet_frames = 1 + rng.below(5) as usize;
+                for q in 0..quiet_frames {
+                    m.run_frames(1);
+                    st.frames += 1;
+                    let want = if show7 { &scr7 } else { &scr };
+                    if matches(&m, want).is_none() {
+                        ctx.violation(
+                            "canvas:128k:screen-bank-switch",
+                            &format!("latch bit 3 set to {} at frame T={}; {} whole frame(s) later the canvas is not the decode of bank {}: {}", show7 as u8, at, q + 1, if show7 { 7 } else { 5 }, first_diff(&m, want)),
+                            jobj! {"case"=>case,"path"=>path,"toggle"=>k,"t"=>at,"frames_after"=>q + 1},
+                        );
+                        return;
+                    }
                 }
             }
             st.screens += 1;
